@@ -408,6 +408,13 @@ def ver_text(ver):
     return " || ".join("%s %s" % (op, v) for op, v in ver["e"])
 
 
+class _TooDeep(BaseException):
+    """Raised by the nesting counter once Eups.setup nests deeper than FUEL (the model is out of fuel there): the
+    request is compared on that fact only, so it is cut short instead of being left to hit the interpreter's
+    recursion limit over and over (each RecursionError is swallowed as a failed dependency; on graphs with many
+    optional lines that takes minutes).  Not an Exception, so `except Exception` in table.py lets it through."""
+
+
 def _do_request(S, ud, env, req):
     """Runs in a forked child: one command."""
     for k in list(os.environ):
@@ -426,6 +433,8 @@ def _do_request(S, ud, env, req):
         nest[0] += 1
         nest[1] = max(nest[1], nest[0])
         try:
+            if nest[0] > FUEL:
+                raise _TooDeep()
             return orig(self, *a, **k)
         finally:
             nest[0] -= 1
@@ -441,6 +450,9 @@ def _do_request(S, ud, env, req):
             cmds = app.setup(req["name"], vname, prefTags=tags, eupsenv=E, fwd=(req["op"] == "setup"))
             out["outcome"] = "notfound" if "false" in cmds else "ok"
             out["cmds"] = cmds
+        except _TooDeep:
+            out["outcome"] = "deep"
+            out["cmds"] = None
         except Exception as e:  # noqa
             out["outcome"] = "raised"
             out["exc"] = type(e).__name__
@@ -488,8 +500,14 @@ def run_history(case):
         for req in case["history"]:
             r = common.in_child(_do_request, S, ud, env, req, _timeout=60)
             if r[0] != "ok":
+                with open(os.path.join(common.WORK, "failed-request-%s.json" % common.digest(case_input(case))), "w") as f:
+                    json.dump({"case": case_input(case), "step": len(outs), "result": repr(r[:3])}, f)
                 outs.append({"outcome": "harness:" + str(r[:3])})
                 break
+            if r[1]["outcome"] == "deep":
+                outs.append({"before": strip(env, S), "outcome": "deep", "exc": None, "vro": r[1]["vro"], "nest": r[1]["nest"],
+                             "after": {}, "aliases": {}, "unaliased": [], "cmds": None})
+                break                    # the environment after such a request is not looked at: the history ends here
             r = r[1]
             res = {"before": strip(env, S), "outcome": r["outcome"], "exc": r["exc"], "vro": r["vro"], "nest": r["nest"],
                    "after": strip(r["env"], S), "aliases": r["aliases"], "unaliased": r["unaliased"],
@@ -839,6 +857,8 @@ def check_request(G_, req, r, stats=None):
         if req["keep"]:
             cnt("c04_keep")
             for m, v in e0["recs"].items():
+                if (m, v) not in G_.decl:
+                    continue            # a record naming an undeclared version: eups cannot find it, nothing to keep
                 if m != name and e1["recs"].get(m) != v:
                     cls = None
                     oldv = e0["recs"].get(name)
@@ -1031,7 +1051,7 @@ def roundtrip_oracle(G_, case, raw, impl, model, stats):
         ra, rb = raw[i], raw[i + 1] if i + 1 < len(raw) else {}
         if ra.get("outcome") != "ok" or "before" not in rb:
             continue
-        if impl[i].get("deep") or impl[i + 1].get("deep"):
+        if i + 1 >= len(impl) or impl[i].get("deep") or impl[i + 1].get("deep"):
             continue
         e0, e1 = canon_env(G_, ra["before"]), canon_env(G_, ra["shell"])
         if any(n in e0["recs"] for n in e1["recs"] if e1["recs"][n] != e0["recs"].get(n)) or \
@@ -1044,8 +1064,15 @@ def roundtrip_oracle(G_, case, raw, impl, model, stats):
             continue
         stats["roundtrips"] = stats.get("roundtrips", 0) + 1
         x0, x2 = approx_env(G_, ra["before"]), approx_env(G_, rb["shell"])
-        new = {n: v for n, v in e1["recs"].items() if n not in e0["recs"]}
-        setv, el = contributed(G_, new, not a["inexact"])
+        # the closure, as for the theorems: every declared version of every name reachable from the request
+        # (a version set up and replaced during the request contributes too)
+        setv, el = set(), {}
+        for n in G_.reach([a["name"]]):
+            for v in G_.versions(n):
+                sv, e_ = contributed(G_, {n: v}, not a["inexact"])
+                setv |= sv
+                for k_, x_ in e_.items():
+                    el.setdefault(k_, set()).update(x_)
         e2 = canon_env(G_, rb["shell"])
         left_recs = {n for n in e2["recs"] if n not in e0["recs"]}
         cj = conflict_with_just(G_, a["name"], not a["inexact"])
